@@ -171,7 +171,7 @@ impl Aml for ProcessorNode {
         let reserved: u16 = 0;
 
         sink.byte(NodeType::Processor as u8);
-        sink.byte(self.len() as u8);
+        sink.byte(u8::try_from(self.len()).unwrap());
         sink.word(reserved);
         sink.dword(self.flags);
         sink.dword(self.parent);
